@@ -21,24 +21,24 @@ import (
 
 // c15Res is the judged result of one execution.
 type c15Res struct {
-	outcome string // rejected:… | accepted-param[:…] | exit:… | LEAK
-	leak    string // SQL text that contains the marker
-	where   string // "migrate" | "run"
+	outcome  string // rejected:… | accepted-param[:…] | exit:… | LEAK
+	leak     string // SQL text that contains the marker
+	where    string // "migrate" | "run"
 	panicked string
-	harness string
-	detail  string
+	harness  string
+	detail   string
 	// non-vacuity observations
-	rows      map[string]int
-	cursors   map[string]uint64
-	notifs    int
-	lookups   int
-	deletes   int
-	copies    int
-	sqlCount  int
-	stored    bool // the marker was found in a stored row or notification (it travelled as data)
-	httpCode  int
-	httpBody  string
-	stepErrs  []string
+	rows     map[string]int
+	cursors  map[string]uint64
+	notifs   int
+	lookups  int
+	deletes  int
+	copies   int
+	sqlCount int
+	stored   bool // the marker was found in a stored row or notification (it travelled as data)
+	httpCode int
+	httpBody string
+	stepErrs []string
 }
 
 func classifyReject(err error) string {
